@@ -1580,7 +1580,9 @@ class C17(Property):
                     where.append((i, "mid2"))
             if c["kind"] in ("load", "shape"):
                 wsub.append({"id": len(wsub), "type": c["type"], "json": r["texts"]["json"],
-                             "json2": (r.get("texts2") or {}).get("json", "")})
+                             "json2": (r.get("texts2") or {}).get("json", ""),
+                             "yaml": r["texts"].get("yaml", "") if c["kind"] == "load" else "",
+                             "toml": r["texts"].get("toml", "") if c["kind"] == "load" else ""})
                 wwhere.append(i)
 
         def run_mid():
@@ -1605,6 +1607,7 @@ class C17(Property):
             rs, ws = f1.result(), f2.result()
         for (i, slot), m in zip(where, rs):
             res[i][slot] = m["mid"]
+            res[i]["retained"] = res[i].get("retained", True) and bool(m.get("retained"))
             if slot == "mid" and m.get("midenv"):
                 res[i]["midenv"] = m["midenv"]
         for i, w in zip(wwhere, ws):
@@ -1613,6 +1616,8 @@ class C17(Property):
             if w.get("tdesc") != res[i].get("tdesc"):
                 raise ExecError("c17 conf white-box: case %s: the two executors built different types" % cases[i].get("id"))
             res[i]["white"] = {k: w.get(k) for k in ("infoerr", "info", "lc", "lc2", "lcerr")}
+            if w.get("inter"):
+                res[i]["inter"] = w["inter"]
         for r in res:
             r.pop("id", None)
         # known findings are suppressed only where the deviation is EXACTLY the registered one: the model
@@ -1654,13 +1659,14 @@ class C17(Property):
                     cstr(k), cstr(v),
                     copt(cstr(obs["propsoff"][k]) if obs.get("propsoff") and k in obs["propsoff"] else None),
                     copt(cstr(obs["propson"][k]) if obs.get("propson") and k in obs["propson"] else None)))
-            ex = "(Some (mkExtra %s %s %s %s %s %s %s %s %s %s))" % (
+            inter = ["(%s, %s)" % (cob(obs["inter"][f][0]), cob(obs["inter"][f][1])) for f in ("yaml", "toml") if f in (obs.get("inter") or {})]
+            ex = "(Some (mkExtra %s %s %s %s %s %s %s %s %s %s %s %s))" % (
                 clist(["(%s, %s)" % (cstr(e), cob(r)) for e, r in sorted(obs["byext"].items())]),
                 clist(["(%s, %s)" % (cstr(e), cob(r)) for e, r in sorted((obs.get("must") or {}).items())]),
                 cob(obs.get("fill")), copt(cob3(obs["envref"]) if obs.get("envref") else None),
                 copt(cob3(obs["envmust"]) if obs.get("envmust") else None),
                 clist(["(%s, %s)" % (cstr(e), cob(r)) for e, r in sorted((obs.get("depr") or {}).items())]),
-                clist(props), info, clc(w.get("lc")), clc(w.get("lc2")))
+                clist(props), cbool(obs.get("retained", True)), clist(inter), info, clc(w.get("lc")), clc(w.get("lc2")))
         return "CaseLoad %s %s %s %s %s %s %s %s %s %s %s %s" % (
             cfields(case["type"]), cdoc(case["doc"]),
             copt(cdoc(d2) if d2 else None),
@@ -1672,6 +1678,62 @@ class C17(Property):
             copt(cob3(obs["load2"]) if obs.get("load2") else None),
             copt(cob3(obs["envon"]) if obs.get("envon") else None),
             copt(cob3(obs["envoff"]) if obs.get("envoff") else None), ex)
+
+    # ---- concurrent loads (direct monitor)
+    def extra(self, ctx):
+        """k goroutines, each loading ITS OWN document (its own type, one of the five YAML / TOML / JSON entry
+        points) over and over while the others do the same: every result must be the one the same load gives
+        sequentially — nothing a loader returns or uses between its steps may be shared with another load"""
+        import random
+        rng = random.Random(ctx.seed * 31 + 5)
+        g = Gen(rng, "quick")
+        base = []
+        while len(base) < 10:
+            c = g.load_case()
+            c["env"] = None
+            c.pop("props", None)
+            c["doc2"] = None
+            if detect_shapes(c) or lower_collisions(c) or (not fix_landed() and nested_map_shape(c)):
+                continue
+            base.append(c)
+        for i, c in enumerate(base):
+            c["id"] = i
+        rc, out, res = vlib.go_run(self.bin, base, tag="c17concprep", timeout=300)
+        if rc != 0 or len(res) != len(base):
+            raise ExecError("c17 executor (conc, rendering) rc=%s: %s" % (rc, out[-1500:]))
+        fmts = ["yaml", "toml", "json", "myaml", "mtoml", "yaml", "toml", "yaml", "toml", "json"]
+        members = []
+        for c, r, f in zip(base, res, fmts):
+            if r.get("fail"):
+                raise ExecError("c17 executor (conc, rendering): %s" % r["fail"])
+            members.append({"type": c["type"], "format": f, "text": r["texts"][f[-4:]]})
+        thorough = ctx.tier == "thorough"
+        case = {"id": 0, "kind": "conc", "type": [], "doc": dm(), "members": members, "rounds": 2000 if thorough else 300}
+        binp = self.bin
+        if thorough:
+            ok, rb = vlib.go_build("c17", race=True)
+            if not ok:
+                raise ExecError("c17 -race build failed: %s" % rb[-1500:])
+            binp = rb
+        rc, out, res = vlib.go_run(binp, [case], tag="c17conc", timeout=900)
+        if thorough:
+            vlib.go_build("c17")          # leave the plain binary in place
+        fails = []
+        if "DATA RACE" in out:
+            fails.append({"what": "the race detector reports a data race between concurrent configuration loads",
+                          "replay": {"case": case, "output": out[-4000:]}})
+        if rc != 0 or len(res) != 1 or res[0].get("fail"):
+            if not fails:
+                raise ExecError("c17 executor (conc) rc=%s: %s" % (rc, (out or "")[-1500:] + str(res)[:500]))
+            return fails
+        for m, o in zip(members, res[0]["conc"]):
+            if o["distinct"] != [o["seq"]]:
+                fails.append({"what": "a load running concurrently with loads of OTHER documents returned something else than the "
+                                      "same load alone (format %s)" % m["format"],
+                              "replay": {"member": m, "sequential": o["seq"], "concurrent_distinct": o["distinct"][:4],
+                                         "all_members": members, "rounds": case["rounds"]}})
+                break
+        return fails
 
     # ---- reporting
     def known(self, case, obs):
